@@ -311,3 +311,13 @@ MUTANTS += [
     B("c13-benign-separators-reordered", "C13", RFC, "t[4] != '-' || t[7] != '-' || t[10] != 'T' || t[13] != ':' || t[16] != ':' {", "t[16] != ':' || t[13] != ':' || t[10] != 'T' || t[7] != '-' || t[4] != '-' {"),
     B("c13-benign-round-variable", "C13", RFC, "\treturn time.Date(year, time.Month(month), date, hour, min, sec, int(math.Round(frac*1000000000.0)), location), nil", "\tnsec := math.Round(frac * 1e9)\n\treturn time.Date(year, time.Month(month), date, hour, min, sec, int(nsec), location), nil"),
 ]
+
+MUTANTS += [
+    # ---------------- C09.R3
+    M("c09-r3-facility-upper-bound", "C09", "C09.R3", SPARSE, "\tif facility < 0 || facility >= len(syslogprotocol.FacilityNames) {", "\tif facility < 0 || facility > len(syslogprotocol.FacilityNames) {", "PRI 192..199 (facility 24)"),
+    M("c09-r3-facility-lower-bound", "C09", "C09.R3", SPARSE, "\tif facility < 0 || facility >= len(syslogprotocol.FacilityNames) {", "\tif facility >= len(syslogprotocol.FacilityNames) {", "PRI '-8' (strconv.Atoi accepts a sign)"),
+    M("c09-r3-severity-mask", "C09", "C09.R3", SPARSE, "\tseverity := priVal & 0b111\n", "\tseverity := priVal & 0b1111\n", "PRI 8..15: severity 8 with an 8-entry table"),
+    M("c09-r3-mapping-length-unchecked", "C09", "C09.R3", SPARSE, "\t} else if len(levelMapping) != 8 {\n\t\treturn nil, fmt.Errorf(\"level mapping should have 8 elements not %d\", len(levelMapping))\n\t}", "\t}", "a level mapping with 7 entries and severity 7"),
+    M("c09-r3-pri-slice", "C09", "C09.R3", SPARSE, "\tpri := val[1 : len(val)-2]\n", "\tpri := val[2 : len(val)-2]\n", "PRI token '<>1': val[2:1]"),
+    B("c09-r3-benign-severity-mod", "C09", SPARSE, "\tseverity := priVal & 0b111\n", "\tseverity := priVal & 7\n"),
+]
